@@ -22,7 +22,9 @@ while IFS= read -r f; do
   base=$(basename "$f")
   rel="${f#$D/demo/}"
   # 1. "file -> path" lines  2. any repository-relative path ending in the file name  3. the relative path inside demo/  4. repository root
-  dst=$(grep -E "^\s*\S*$base\s+->\s+\S+" "$README" 2>/dev/null | head -1 | sed -E 's/.*->//' | grep -oE "[^ ]*$base" | tail -1)
+  # 0. "relative/path/in/demo/file -> path" lines (several files of one name in different directories)
+  dst=$(grep -E "^\s*(\./)?(demo/)?$rel\s+->\s+\S+" "$README" 2>/dev/null | head -1 | sed -E 's/.*->//' | grep -oE "[^ ]*$base" | tail -1)
+  if [ -z "$dst" ]; then dst=$(grep -E "^\s*\S*$base\s+->\s+\S+" "$README" 2>/dev/null | head -1 | sed -E 's/.*->//' | grep -oE "[^ ]*$base" | tail -1); fi
   if [ -z "$dst" ]; then dst=$(grep -oE "[A-Za-z0-9_./-]+/$base" "$README" 2>/dev/null | grep -v "^/tmp" | sed -E 's#^(\./)?(change[0-9]+/)?demo/##' | grep "/" | head -1); fi
   if [ -z "$dst" ] && [ "$rel" != "$base" ]; then
     # a directory inside demo/: the README names where that directory goes
